@@ -6,6 +6,20 @@ From Verif Require Import Shape.
 Import ListNotations.
 Open Scope Z_scope.
 
+(* the algebra the theorems need of the element type (Z, and exact arithmetic in general, has it;
+   floating point does not: rounding is outside the model) *)
+Record comm_semiring {V : Type} (vzero : V) (vadd vmul : V -> V -> V) : Prop := {
+  sr_add_0_l : forall x, vadd vzero x = x;
+  sr_add_comm : forall x y, vadd x y = vadd y x;
+  sr_add_assoc : forall x y z, vadd x (vadd y z) = vadd (vadd x y) z;
+  sr_mul_0_l : forall x, vmul vzero x = vzero;
+  sr_mul_0_r : forall x, vmul x vzero = vzero;
+  sr_mul_comm : forall x y, vmul x y = vmul y x
+}.
+
+Lemma Z_comm_semiring : comm_semiring 0 Z.add Z.mul.
+Proof. constructor; intros; auto with zarith. Qed.
+
 Section NpDot.
   Variable V : Type.
   Variable vzero : V.
@@ -19,6 +33,12 @@ Section NpDot.
   (* np.matmul / np.dot of an (m x n) by an (n x p) matrix:  (a @ b)[i, k] = sum_j a[i, j] * b[j, k] *)
   Definition np_matmul2 (n : Z) (a b : Z -> Z -> V) : Z -> Z -> V :=
     fun i k => sum_over n (fun j => vmul (a i j) (b j k)).
+
+  (* np.dot of two 1-d arrays: the lengths must agree *)
+  Fixpoint zip_mul (a b : list V) : list V :=
+    match a, b with x :: a', y :: b' => vmul x y :: zip_mul a' b' | _, _ => [] end.
+  Definition np_dot_1d (a b : list V) : option V :=
+    if (length a =? length b)%nat then Some (vsum (zip_mul a b)) else None.   (* None: ValueError *)
 
   (* dense arrays *)
   Record arr := mkArr { a_shape : shape; a_at : idx -> V }.
